@@ -23,6 +23,10 @@ func NondetBytesLen(name string, maxLen int) []byte { return nil }
 // symbolically the value handed to the encoder (the encoder itself is not executed), natively json.Unmarshal.
 func JSONValue(doc []byte) interface{} { return nil }
 
+// FieldUint64 reads an (unexported) unsigned integer field of a struct value held in an interface
+// (used to read the version carried by an atomix IfVersion option).
+func FieldUint64(v interface{}, field string) uint64 { return 0 }
+
 // Param is a tier-dependent bound chosen by the check driver (a concrete constant in every run).
 func Param(name string) int { return 0 }
 
